@@ -110,6 +110,9 @@ def run(ctx):
     ex = [job(D, "lin", m, c, seeds[0], target="sphere_in", opts=dict(v)) for v in C09_EXTRA for D in (1, 2) for m in ("det", "decl", "spec") for c in (None,)
           if not (q and D == 2 and m == "decl")]
     ex += [dict(job(D, g, m, c, seeds[0], target="sphere_in"), target_obj=True) for D in (1, 2) for g in ("lin",) for m in ("det", "spec") for c in (None, "ball_c", "half_c")]
+    # specified noise requested by specify_target_noise alone; a target that overwrites its argument in place
+    ex += [dict(job(D, g, "spec", c, seeds[0], target="sphere_in"), spec_only=True) for D in (1, 2) for g in ("lin", "log") for c in (None, "ball")]
+    ex += [dict(job(D, g, m, None, seeds[0], target="sphere_in"), mutate_arg=True) for D in (1, 2) for g in ("lin", "log", "unb") for m in ("det", "spec")]
     st = explore(ex, ["ans", "noise"], 0, sink, stats=st, name="value-spellings/b0")
     sink.finish_cov(st)
     rep.set("gate_jobs", ng)
